@@ -370,7 +370,9 @@ impl<'a> Searcher<'a> {
                 .unwrap_or(self.config.dockerignore.unwrap_or(false));
             let traversal_mode = root.options.traversal;
 
-            // Apply filters
+            // Apply filters: those of this root only (another root may lie in another context)
+            self.hgignore_filters.clear();
+            self.dockerignore_filters.clear();
             if apply_hgignore {
                 search_upstream_hgignore(&mut self.hgignore_filters, root_dir);
             }
